@@ -234,7 +234,11 @@ def main(modname, argv=None):
     ap.add_argument("--only", help="comma separated subcheck names")
     ap.add_argument("--jobs", type=int, default=int(os.environ.get("VERIF_JOBS", "16")))
     ap.add_argument("--no-evidence", action="store_true")
+    ap.add_argument("--shapes", help="python expression over the shape dict `s` selecting the shapes to run (development aid; implies --no-evidence)")
     a = ap.parse_args(argv)
+    if a.shapes:
+        a.no_evidence = True
+        os.environ["VERIF_PARTIAL"] = "1"
     tier = a.tier if a.tier in ("quick", "thorough") else "quick"
     seed = int(os.environ.get("VERIF_SEED", "0") or 0)
 
@@ -255,6 +259,8 @@ def main(modname, argv=None):
     jobs = []
     for name, sub in subs.items():
         for shape in sub.shapes(tier):
+            if a.shapes and not eval(a.shapes, {"s": shape}):
+                continue
             jobs.append((modname, name, shape, tier, seed))
     results = []
     if a.jobs <= 1 or len(jobs) == 1:
@@ -319,7 +325,7 @@ def finish(mod, prop, tier, seed, subs, results, t0, write=True):
             else:
                 new_viol.append(v)
     for name, sub in subs.items():
-        for tag in sub.required_cover:
+        for tag in sub.required_cover if not os.environ.get("VERIF_PARTIAL") else []:
             if cover.get(name + ":" + tag, 0) == 0:
                 errors.append("[%s] required coverage tag never hit: %s" % (name, tag))
     for v in unreproduced[:5]:
